@@ -59,7 +59,7 @@ def run_scenario(sc: dict, port: int, tag: str, deadline: float, scratch) -> dic
         os.killpg(sid, signal.SIGKILL)
     except ProcessLookupError:
         pass
-    for f in glob.glob(f"/dev/shm/sCasc{tag}*") + glob.glob(f"/tmp/{tag}h*.socket"):
+    for f in glob.glob(f"/dev/shm/sCasc{tag}*") + glob.glob(f"/tmp/{tag}h*.socket") + glob.glob(f"/tmp/{tag}.flag"):
         try:
             os.unlink(f)
         except OSError:
